@@ -3877,7 +3877,12 @@ class StaleFileRemovalCommand : public Command {
     return false;
   }
 
-  virtual void start(BuildSystem&, TaskInterface) override {}
+  virtual void start(BuildSystem&, TaskInterface) override {
+    // The command object is reused when the same build system builds again:
+    // the list computed for an earlier build must not be applied to this one.
+    computedFilesToDelete = false;
+    filesToDelete.clear();
+  }
 
   virtual void providePriorValue(BuildSystem&, TaskInterface,
                                  const BuildValue& value) override {
